@@ -169,7 +169,8 @@ impl Ctx {
     }
 
     pub fn oracle_fail(&mut self, what: String, case: &Case, line_no: Option<usize>) {
-        if self.findings.len() < 200 {
+        // caps are per class so that many model disagreements cannot crowd out a failing input
+        if self.findings.iter().filter(|f| f.class == "oracle").count() < 200 {
             self.findings.push(Finding {
                 class: "oracle".into(),
                 what,
@@ -180,7 +181,7 @@ impl Ctx {
     }
 
     pub fn model_fail(&mut self, what: String, case: &Case, line_no: Option<usize>) {
-        if self.findings.len() < 200 {
+        if self.findings.iter().filter(|f| f.class == "model").count() < 100 {
             self.findings.push(Finding {
                 class: "model".into(),
                 what,
